@@ -367,16 +367,33 @@ def hooksAsync (u : UEnv) (m : Machine) : Hooks :=
   mkHooks u m false (fun e s => enqueueQ true e { s with raiseDepth := s.raiseDepth + 1 })
     (fun e s => enqueueQ true e { s with raiseDepth := s.raiseDepth + 1 })
 
-/-- one iteration of `_run_event_loop`; an error while processing is logged and the loop survives -/
-def asyncStep (m : Machine) (u : UEnv) (e : Ev) (s : St) : St :=
-  -- chain broken: this event is dropped together with every other self-raised event still queued
-  if s.raiseDepth > m.maxIterations then { s with raiseDepth := 0, queue := s.queue.filter (fun q => !q.self) }
-  else
-    let before := s.raiseDepth
-    let s1 := processEvent (hooksAsync u m) .async m u e (emit ("#recv:" ++ e.type) s)
-    let s2 := transientLoop (hooksAsync u m) .async m u m.maxIterations s1
-    if s2.err.isSome then { s2 with err := none, errors := s2.errors + 1 }
-    else if s2.raiseDepth = before && !(s2.queue.any (·.self)) then { s2 with raiseDepth := 0 } else s2
+/-- the end-of-chain test BEHIND the `try/except/finally` of the run loop: the chain ends (the counter
+    is reset) once this macrostep raised nothing (`_raise_depth == depth_before`) and nothing self-raised
+    is pending (`not self._self_raised`) — whether the macrostep succeeded or FAILED -/
+def asyncChainEnd (before : Nat) (s : St) : St :=
+  if s.raiseDepth = before && !(s.queue.any (·.self)) then { s with raiseDepth := 0 } else s
+
+/-- what the run loop does with an event it decided to process (`on_event_received`, `try: …
+    _process_event_and_transient_transitions`, `except Exception: log`, then the end-of-chain test): an
+    error while processing is logged and the loop survives. `depth_before` is read when the `try` is
+    entered. -/
+def asyncProcess (m : Machine) (u : UEnv) (e : Ev) (s : St) : St :=
+  let s1 := processEvent (hooksAsync u m) .async m u e (emit ("#recv:" ++ e.type) s)
+  let s2 := transientLoop (hooksAsync u m) .async m u m.maxIterations s1
+  asyncChainEnd s.raiseDepth (if s2.err.isSome then { s2 with err := none, errors := s2.errors + 1 } else s2)
+
+/-- the chain breaker fired: the counter is reset and every self-raised event still queued is purged;
+    externally sent events are kept, in order -/
+def asyncPurge (s : St) : St := { s with raiseDepth := 0, queue := s.queue.filter (fun q => !q.self) }
+
+/-- one iteration of `_run_event_loop` for the dequeued entry `q` (`was_self_raised` is `q.self`).
+    Chain broken (`_raise_depth > limit`): the queue is purged; the event in hand is dropped only if it
+    is itself a member of the chain — an event sent from OUTSIDE falls through and is processed like
+    any other event (with the counter at 0). -/
+def asyncStep (m : Machine) (u : UEnv) (q : QEv) (s : St) : St :=
+  if s.raiseDepth > m.maxIterations then
+    (if q.self then asyncPurge s else asyncProcess m u q.ev (asyncPurge s))
+  else asyncProcess m u q.ev s
 
 /-- run the loop until the queue is empty or the machine stops running; `fuel` only guards the model
     (the code has no such bound: exhaustion is reported as a hang) -/
@@ -386,19 +403,35 @@ def asyncDrain (m : Machine) (u : UEnv) : Nat → St → St
     if s.status ≠ "running" then s else
     match s.queue with
     | [] => s
-    | q :: rest => asyncDrain m u fuel (asyncStep m u q.ev { s with queue := rest })
+    | q :: rest => asyncDrain m u fuel (asyncStep m u q { s with queue := rest })
 
 def asyncFuel (m : Machine) : Nat := 10 * m.maxIterations + 50
 
-def asyncStart (m : Machine) (u : UEnv) (s : St) : St :=
+/-- `start()`, first phase: `await self._enter_states([self.machine], init_event)` -/
+def asyncStartEntered (m : Machine) (u : UEnv) (s : St) : St :=
   let s := { s with status := "running", ctx := m.ctx0 }
   let (es, e) := startEntries m
   let s := es.foldl (enterOne (hooksAsyncStart u m) .async m (some "___xstate_statemachine_init___")) s
-  let s := match e with | some err => s.fail err | none => s
-  if s.err.isSome then { s with status := "stopped" } else
-  let s := transientLoop (hooksAsyncStart u m) .async m u m.maxIterations s
-  if s.err.isSome then { s with status := "stopped" } else
-  asyncDrain m u (asyncFuel m) s
+  match e with | some err => s.fail err | none => s
+/-- `start()`, second phase: `await self._settle_transient_transitions()` -/
+def asyncStartSettled (m : Machine) (u : UEnv) (s : St) : St :=
+  transientLoop (hooksAsyncStart u m) .async m u m.maxIterations (asyncStartEntered m u s)
+
+/-- `start()` up to the point where the run-loop task is created: the initial entry and the eventless
+    settling, with NO event dequeued in between (no loop exists yet: whatever entry actions raise and
+    whatever was sent meanwhile just sits in the queue); a failure stops the interpreter -/
+def asyncStartSettle (m : Machine) (u : UEnv) (s : St) : St :=
+  if (asyncStartEntered m u s).err.isSome then { asyncStartEntered m u s with status := "stopped" }
+  else if (asyncStartSettled m u s).err.isSome then { asyncStartSettled m u s with status := "stopped" }
+  else asyncStartSettled m u s
+
+/-- `if self.status == "running": self._event_loop_task = create_task(self._run_event_loop())` -/
+def asyncLoopCreated (m : Machine) (u : UEnv) (s : St) : Bool := decide ((asyncStartSettle m u s).status = "running")
+
+/-- `start()`: entry + settling, THEN (only if still running) the run loop, observed at quiescence -/
+def asyncStart (m : Machine) (u : UEnv) (s : St) : St :=
+  let s' := asyncStartSettle m u s
+  if s'.status = "running" then asyncDrain m u (asyncFuel m) s' else s'
 
 def asyncSend (m : Machine) (u : UEnv) (e : Ev) (s : St) : St :=
   if s.status = "running" then asyncDrain m u (asyncFuel m) { s with queue := s.queue ++ [⟨e, false⟩] } else s
